@@ -279,6 +279,7 @@ pub mod format {
     //@ ensures third_party: external_signature is Some ==> r == 1
     //@ ensures datalog33: block_version is Some && block_version->Some_0 >= 6 ==> r == 1
     //@ ensures non_ed25519: !(block_keypair is Ed25519 && next_keypair is Ed25519) ==> r == 1
+    //@ ensures otherwise: external_signature is None && !(block_version is Some && block_version->Some_0 >= 6) && block_keypair is Ed25519 && next_keypair is Ed25519 ==> r == (match iter_max_spec(previous_blocks_sig_versions) { Some(m) => m, None => 0u32 })
     //@end
 }
 //@canary chain-prev :: format::SerializedBiscuit::verify_inner :: previous_signature = &block.signature; ==>>
@@ -287,6 +288,8 @@ pub mod format {
 //@canary tp-version-gate :: format::SerializedBiscuit::deserialize :: && block.version != Some(THIRD_PARTY_SIGNATURE_VERSION) ==>> && false
 //@canary append-prev :: format::SerializedBiscuit::append :: &self.last_block().signature, ==>> &self.authority.signature,
 //@canary seal-drops-blocks :: format::SerializedBiscuit::seal :: blocks: self.blocks.clone(), ==>> blocks: Vec::new(),
+//@canary sigversion-third-party :: format::block_signature_version :: if external_signature.is_some() { ==>> if false {
+//@canary sigversion-no-max :: format::block_signature_version :: previous_blocks_sig_versions.max().unwrap_or(0) ==>> previous_blocks_sig_versions.max().map(|_| 0).unwrap_or(0)
 //@canary-requires format::SerializedBiscuit::new_inner
 //@canary-requires format::SerializedBiscuit::append
 //@canary-requires format::SerializedBiscuit::append_serialized
